@@ -270,11 +270,13 @@ pub fn units(tier: Tier, seed: u64) -> Vec<Unit> {
         u.push(unit!(format!("C02/BinaryEntropy/N={n}/k={k}/sample-path"), binary_entropy(n, k)));
     }
     // hundreds of evictions at a small window (periodic maintenance, wrapped ring buffers, saturating counters)
-    for &(n, k) in &(if tier == Tier::Quick { vec![(5usize, 560usize), (7, 780)] } else { vec![(3usize, 340usize), (5, 560), (7, 780), (10, 1100), (13, 1420)] }) {
+    for &(n, k) in &(if tier == Tier::Quick { vec![(5usize, 560usize), (7, 780), (6, 8300)] } else { vec![(3usize, 340usize), (5, 560), (7, 780), (10, 1100), (13, 1420)] }) {
         u.push(unit!(format!("C02/Sma/N={n}/k={k}/sample-path"), sma(n, k)));
         u.push(unit!(format!("C02/Cumulative/N={n}/k={k}/sample-path"), cumulative(n, k)));
-        u.push(unit!(format!("C02/Min/N={n}/k={k}/sample-path"), minmax(n, k, false)));
-        u.push(unit!(format!("C02/Max/N={n}/k={k}/sample-path"), minmax(n, k, true)));
+        if k <= 800 {
+            u.push(unit!(format!("C02/Min/N={n}/k={k}/sample-path"), minmax(n, k, false)));
+            u.push(unit!(format!("C02/Max/N={n}/k={k}/sample-path"), minmax(n, k, true)));
+        }
         u.push(unit!(format!("C02/Roc/N={n}/k={k}/sample-path"), roc(n, k)));
     }
     for (i, x) in u.iter_mut().enumerate().skip(first) { x.concolic = Some(seed * 31 + 1 + (i as u64 % 2)); x.budget_s = 60.0; x.max_decisions = 60000; }
@@ -344,7 +346,7 @@ pub fn units(tier: Tier, seed: u64) -> Vec<Unit> {
 pub fn meta() -> Meta {
     Meta {
         functions: vec!["Sma::{update,last}", "Cumulative::{update,last}", "Min::{update,last}", "Max::{update,last}", "WelfordOnline::{update,last,mean,variance}", "HLNormalizer::{update,last}", "Roc::{update,last}", "BinaryEntropy::{update,last}", "Vst::{update,last}", "Vsct::{update,last}", "Echo::{update,last}"],
-        bounds: "window length N in {1,2,3} (quick) / {1..5} (thorough; HLNormalizer to 4); stream length k = 2N+2 so every value enters and leaves the window; inputs are unconstrained reals; every feasible outcome of every comparison the real code performs is explored; in addition every N in 4..10, 12, 16 at k=2N+2, (2,40),(3,60), and the boundary lengths 31,32,33,63,64,65 at k=N+6 for the cheap views (quick) / up to (32,66),(5,100) (thorough) along the comparison path of a pseudo-random sample input (larger windows, streams much longer than the window); and fully symbolic shaped long streams for N in {1,2,3} (quick) / {1,2,3,4,6}: strictly decreasing / increasing streams of length 10N+6 for Min/Max/HLNormalizer, and 8N+2 alternating values + a flat run of 5 + 2 free values for Sma/Cumulative/WelfordOnline/Vst/Vsct/Roc/Max; and N in {10,11} (quick) / {7,10,11,13,16} on alternating / period-3 / three-free-then-flat / flat-then-three-free symbolic streams; Sma/Cumulative/Min/Max/Roc also for (N,k) in {(5,560),(7,780)} (quick) / {(3,340),(5,560),(7,780),(10,1100),(13,1420)} — more than 100 N evictions — along a sampled comparison path; Sma/Cumulative/Roc on all comparison paths (fully symbolic) at (N,k) in {(130,134),(200,204),(3,262),(5,263)}, up to 400 paths; Sma/Min/Max/HLNormalizer/Roc/WelfordOnline on streams alternating between two, and cycling through three, symbolic values (all comparison outcomes) at N in {15,16,17,33,49,64} (quick) / {15..17,31..34,47..49,63..65,128,129}",
+        bounds: "window length N in {1,2,3} (quick) / {1..5} (thorough; HLNormalizer to 4); stream length k = 2N+2 so every value enters and leaves the window; inputs are unconstrained reals; every feasible outcome of every comparison the real code performs is explored; in addition every N in 4..10, 12, 16 at k=2N+2, (2,40),(3,60), and the boundary lengths 31,32,33,63,64,65 at k=N+6 for the cheap views (quick) / up to (32,66),(5,100) (thorough) along the comparison path of a pseudo-random sample input (larger windows, streams much longer than the window); and fully symbolic shaped long streams for N in {1,2,3} (quick) / {1,2,3,4,6}: strictly decreasing / increasing streams of length 10N+6 for Min/Max/HLNormalizer, and 8N+2 alternating values + a flat run of 5 + 2 free values for Sma/Cumulative/WelfordOnline/Vst/Vsct/Roc/Max; and N in {10,11} (quick) / {7,10,11,13,16} on alternating / period-3 / three-free-then-flat / flat-then-three-free symbolic streams; Sma/Cumulative/Min/Max/Roc also for (N,k) in {(5,560),(7,780),(6,8300: Sma, Cumulative, Roc only)} (quick) / {(3,340),(5,560),(7,780),(10,1100),(13,1420)} — more than 100 N evictions — along a sampled comparison path; Sma/Cumulative/Roc on all comparison paths (fully symbolic) at (N,k) in {(130,134),(200,204),(3,262),(5,263)}, up to 400 paths; Sma/Min/Max/HLNormalizer/Roc/WelfordOnline on streams alternating between two, and cycling through three, symbolic values (all comparison outcomes) at N in {15,16,17,33,49,64} (quick) / {15..17,31..34,47..49,63..65,128,129}",
         outside: vec!["N > 5, streams longer than 2N+2", "the f64 clause ('differs only by rounding noise'): obligations are decided over the reals", "overflow, -0.0, subnormals"],
         assumptions: vec!["BinaryEntropy: log2 of the (concrete, per-path) window fraction is evaluated with the platform libm and compared to 1e-12"],
     }
